@@ -191,11 +191,8 @@ where
         for (key, cache) in self.cache.iter() {
             let key_bytes = key.encode_vec();
             let cache_bytes = cache.encode_vec();
-            if cache.is_old(block_number) {
-                #[cfg(brc20_prog_verif)]
-                crate::verif::failpoint("cached.cache_db.delete")?;
-                self.cache_db.delete(&key_bytes)?;
-            } else {
+            let is_old = cache.is_old(block_number);
+            if !is_old {
                 #[cfg(brc20_prog_verif)]
                 crate::verif::failpoint("cached.cache_db.put")?;
                 self.cache_db.put(&key_bytes, &cache_bytes)?;
@@ -209,6 +206,14 @@ where
                 #[cfg(brc20_prog_verif)]
                 crate::verif::failpoint("cached.db.delete")?;
                 self.db.delete(&key_bytes)?;
+            }
+
+            if is_old {
+                // Drop an old history only after the latest value is in place: a crash in between
+                // would otherwise leave a value that no later reorg can roll back
+                #[cfg(brc20_prog_verif)]
+                crate::verif::failpoint("cached.cache_db.delete")?;
+                self.cache_db.delete(&key_bytes)?;
             }
         }
 
